@@ -13,12 +13,15 @@ Decided:
              is_negative and is_nonzero go through the canonical encoding in both
   shared     the ladder (clamp, step polynomials, swaps), the group law and select wiring are the same
              source and satisfy the same rules when resolved against either backend
-Not decided: absence of overflow in either backend's limb arithmetic; fe32 from_bytes / to_bytes bit maps."""
+  fe-bounds  limb-bound invariants and overflow freedom of both backends; encode (canonical reduction identity, digits, packing)
+             and decode (bit 255 ignored) in both; scalar32 reduce / muladd congruent modulo L with reduced digits (sc32);
+             scalar32 order test decided on all inputs; Scalar::bits / Scalar::ZERO agree
+Not decided: scalar64 Barrett arithmetic as numbers; that the canonical reduction's quotient is floor(H / p)."""
 from .. import facts as F
 from . import C12, C14, C15
 
 EXPLANATION = __doc__
-TECHNIQUE = "R-BUILD (rustc type check with the crate's lint levels), both backends checked against one specification: table oracle, limb-polynomial identities, exponent chains, canonical-predicate rules"
+TECHNIQUE = "interval abstract interpretation over ssa terms with exact carry/remainder relations and trace partitioning on carries (inductive limb-bound invariants, overflow-assert discharge); R-BUILD (rustc type check with the crate's lint levels), both backends checked against one specification: table oracle, limb-polynomial identities, exponent chains, canonical-predicate rules"
 
 
 def run(ctx):
